@@ -191,8 +191,10 @@ pub fn check_project(ctx: &Ctx, n: u64, pv: &ProjView) -> (Vec<Violation>, Vec<V
             let resolved = norm(&format!("{map_dir}/{s}"));
             let f = inputs.get(&resolved);
             if f.is_none() {
-                v20.push(Violation { sig: format!("C20|e2e|sources-entry-does-not-resolve|{kind}"), detail: format!("{map_path}: sources entry {s:?} resolves to {resolved}, which is not an input GraphQL file"), replay: replay20.clone() });
-                v06.push(Violation { sig: format!("C06|e2e|sources-entry-not-an-input-file|{kind}"), detail: format!("{map_path}: {s:?} -> {resolved}"), replay: replay06.clone() });
+                // the model plugin's in-memory schema source ("(plugin)", not a path at all) has its own class
+                let class = if s.ends_with("(plugin)") && pv.files.iter().any(|(p, t)| p.contains("graphql.config") && t.contains("nitrogql:model-plugin")) { "|virtual-plugin-source" } else { "" };
+                v20.push(Violation { sig: if class.is_empty() { format!("C20|e2e|sources-entry-does-not-resolve|{kind}") } else { "C20|e2e|sources-entry-does-not-resolve|virtual-plugin-source".to_string() }, detail: format!("{map_path}: sources entry {s:?} resolves to {resolved}, which is not an input GraphQL file"), replay: replay20.clone() });
+                // (C06 speaks of the entries that segments reference: see the segment loop)
             } else if !(s.starts_with("./") || s.starts_with("../")) {
                 v20.push(Violation { sig: "C20|e2e|sources-entry-not-relative".into(), detail: format!("{map_path}: {s:?}"), replay: replay20.clone() });
             }
@@ -227,7 +229,10 @@ pub fn check_project(ctx: &Ctx, n: u64, pv: &ProjView) -> (Vec<Violation>, Vec<V
                 last_named = None;
                 continue;
             }
-            let Some(sf) = src_files[si as usize] else { continue };
+            let Some(sf) = src_files[si as usize] else {
+                problems.entry("segment-references-a-source-that-is-not-an-input-file".into()).or_insert(format!("{s:?}: sources[{si}] = {}", sources[si as usize]));
+                continue;
+            };
             let nlines = sf.text.split('\n').count() as i64;
             if ol < 0 || ol >= nlines || oc < 0 {
                 problems.entry("original-position-outside-file".into()).or_insert(format!("{s:?}"));
@@ -376,7 +381,14 @@ pub fn run_projects(ctx: &Ctx, rep: &mut Report, prop: &str, quick: u64, thoroug
     let mut segs = 0;
     for case in 0..n {
         let mut rng = ctx.rng("project", case);
-        let Some(proj) = gen_project(&mut rng, &ProjOpts { hostile_trivia: true, ..ProjOpts::standard() }) else { continue };
+        let Some(mut proj) = gen_project(&mut rng, &ProjOpts { hostile_trivia: true, ..ProjOpts::standard() }) else { continue };
+        // a quarter of the projects configure plugins (the model plugin contributes a virtual schema source)
+        if rng.chance(1, 4) {
+            let set = *rng.pick(crate::genproj::PLUGIN_SETS);
+            if crate::genproj::add_plugins(&mut proj.files, set) {
+                rep.count(&format!("projects_with_plugins|{}", set.iter().map(|p| p.trim_start_matches("nitrogql:")).collect::<Vec<_>>().join("+")));
+            }
+        }
         let pv = ProjView::of(&proj);
         rep.trace_case(|| json!({"property":prop,"kind":"project","view":view_json(&pv)}));
         rep.eval();
